@@ -179,11 +179,17 @@ func (w *World) Func(rel, recv, name string) *ssa.Function {
 		if f := p.Func(name); f != nil {
 			return f
 		}
+		if f := w.uniqueByName(p, name); f != nil {
+			return f // the function became a method
+		}
 		w.unres = append(w.unres, fmt.Sprintf("func %s.%s", rel, name))
 		return nil
 	}
 	t := p.Type(recv)
 	if t == nil {
+		if f := w.uniqueByName(p, name); f != nil {
+			return f // the receiver type was renamed
+		}
 		w.unres = append(w.unres, fmt.Sprintf("type %s.%s", rel, recv))
 		return nil
 	}
@@ -195,9 +201,55 @@ func (w *World) Func(rel, recv, name string) *ssa.Function {
 			}
 		}
 	}
+	if f := w.uniqueByName(p, name); f != nil {
+		return f // the method became a function or moved to another receiver
+	}
 	w.unres = append(w.unres, fmt.Sprintf("method %s.%s.%s", rel, recv, name))
 	return nil
 }
+
+// uniqueByName returns the only function or method declared in package p under the simple name, nil when there is
+// none or more than one: an anchor keeps resolving when a function is turned into a method (or the reverse) or its
+// receiver type is renamed.
+func (w *World) uniqueByName(p *ssa.Package, name string) *ssa.Function {
+	var found []*ssa.Function
+	for _, m := range p.Members {
+		switch x := m.(type) {
+		case *ssa.Function:
+			if x.Name() == name {
+				found = append(found, x)
+			}
+		case *ssa.Type:
+			if _, isIface := x.Type().Underlying().(*types.Interface); isIface {
+				continue
+			}
+			seen := map[*ssa.Function]bool{}
+			for _, T := range []types.Type{x.Type(), types.NewPointer(x.Type())} {
+				ms := w.Prog.MethodSets.MethodSet(T)
+				for i := 0; i < ms.Len(); i++ {
+					sel := ms.At(i)
+					if sel.Obj().Name() != name || sel.Obj().Pkg() != p.Pkg || len(sel.Index()) != 1 {
+						continue
+					}
+					if fn := w.Prog.MethodValue(sel); fn != nil {
+						fn = w.unwrap(fn)
+						if !seen[fn] {
+							seen[fn] = true
+							found = append(found, fn)
+						}
+					}
+				}
+			}
+		}
+	}
+	if len(found) == 1 {
+		return found[0]
+	}
+	return nil
+}
+
+// ClearUnresolved forgets the unresolved anchors recorded so far (between the properties of one run).
+func (w *World) ClearUnresolved() { w.unres = nil }
 
 // TryFunc is Func without recording an unresolved anchor.
 func (w *World) TryFunc(rel, recv, name string) *ssa.Function {
